@@ -23,6 +23,15 @@ CLAIMED = {
    note="Trusted: go/ssa, checker/lenprove.go (controls on every run). fromEntry's recombination is listed, not armed. Integer overflow ignored.", ref="§4 C10"),
 }
 # -- add further claimed properties as CLAIMED["Cxx"] = dict(...) below this line --
+CLAIMED["C06"] = dict(technique="static analysis: dominance/must-pass-through dataflow over go/cfg (validate-then-apply, denied append), SSA pipeline comparison of the sign and verify chains, definite-assignment nil-flow in Verify",
+   text="Decides structural necessary conditions of verified, authorised, all-or-nothing merging on every path: state changes dominated by the nil validation error after Wait, infallible apply phase, validated collection == applied collection with CanAppend and Verify called and recorded on every accepting path, denied append stores nothing, sign and verify pipelines agree, Verify is total for every codec, difference admits only equal-log-id entries. It does not decide the signature scheme or policy semantics.",
+   note="Trusted: go/cfg, go/ssa, rule tables in checker/c06.go. User access controllers are opaque.", ref="§4 C06")
+CLAIMED["C12"] = dict(technique="static analysis: nil-flow over go/cfg for decoder-filled struct fields (types discovered from decoder call sites), linear bound prover for wire-byte indices, crash-point and error-discipline scan over the call-graph closure of the decoders",
+   text="Decides for every block a decoder can produce, on every path of the first-party decode closure: nilable wire-struct pointer fields are tested before dereference, wire-byte indices are in range, no unchecked assertion/panic/Must call, discarded errors are followed by nil tests, ToPlain always sets the clock. Third-party decoders are trusted not to panic.",
+   note="Trusted: refmt/cbornode/cid/merkledag/encoding-json do not panic; go/cfg, go/ssa, checker/nilflow.go and lenprove.go (controls on every run).", ref="§4 C12")
+CLAIMED["C20"] = dict(technique="static analysis: SSA data-dependence of post-lookup returns on the datastore result (cache-aside coherence), dominance facts over go/cfg for store-before-cache and create-after-failed-get, AST object identity for signed vs published identity fields",
+   text="Decides on every path: a keystore method that consults the datastore answers from it, CreateKey caches and succeeds only after a successful Put, CreateKey is only called after a failed GetKey for the same id, and the identity publishes exactly what SignIdentity signed. It does not decide anything cryptographic.",
+   note="Trusted: go/cfg, go/ssa; lru and datastore contracts. LRU behaviour and persistence are not covered.", ref="§4 C20")
 
 NOT_APPLICABLE = {
  "C02": "exactness of the head set is set algebra over run-time hashes for every DAG; no checkable structural necessary condition that is not already claimed under C06/C13/C14 (DESIGN §4 C02)",
